@@ -426,7 +426,7 @@ def ns_prefix_arg(style: str):
     # the two 'both' styles bind the XTCE namespace twice on the root (xmlns= and xmlns:xtce=): the elements are spelled one way, the loader
     # is told the OTHER binding, which names the same namespace
     return {"xtce": "xtce", "q": "q", "XTCE": "XTCE", "default": None, "none": None, "none+xsi": None,
-            "both:unprefixed,loaded-as-xtce": "xtce", "both:prefixed,loaded-as-default": None, "xtce+extras": "xtce"}[style]
+            "both:unprefixed,loaded-as-xtce": "xtce", "both:prefixed,loaded-as-default": None, "xtce+extras": "xtce", "xtce+foreign-default": "xtce"}[style]
 
 
 def count_positions(doc: Doc) -> int:
@@ -471,7 +471,7 @@ def render_xml(doc: Doc, style: str = "xtce", comments=None, whitespace: bool = 
     all three alike in every place where it reads a boolean."""
     tree = tree or doc_tree(doc)
     pfx = {"xtce": "xtce:", "q": "q:", "XTCE": "XTCE:", "default": "", "none": "", "none+xsi": "",
-           "both:unprefixed,loaded-as-xtce": "", "both:prefixed,loaded-as-default": "xtce:", "xtce+extras": "xtce:"}[style]
+           "both:unprefixed,loaded-as-xtce": "", "both:prefixed,loaded-as-default": "xtce:", "xtce+extras": "xtce:", "xtce+foreign-default": "xtce:"}[style]
     out = ["<?xml version='1.0' encoding='UTF-8'?>\n"]
     pos = [0]
     entities = {}   # text -> entity name (text_style 'entity')
@@ -537,6 +537,9 @@ def render_xml(doc: Doc, style: str = "xtce", comments=None, whitespace: bool = 
                 attrs += f' xmlns:xsi="{XSI_URI}"'
             elif style.startswith("both:"):
                 attrs += f' xmlns="{XTCE_URI}" xmlns:xtce="{XTCE_URI}"'
+            elif style == "xtce+foreign-default":
+                # the root also declares a DEFAULT namespace that is not XTCE and that no element uses
+                attrs += f' xmlns:xtce="{XTCE_URI}" xmlns="http://www.w3.org/1999/xhtml"'
             elif style == "xtce+extras":
                 # the XTCE prefix among other declarations the document makes (none of them used by an element)
                 attrs += "".join(f' xmlns:{k}="{v}"' for k, v in EXTRA_NS.items() if k < "xtce") + f' xmlns:xtce="{XTCE_URI}"' + \
